@@ -92,7 +92,7 @@ func (r Resources) ContainsBucketPattern() bool {
 // Bucket resources should start with bucket name: arn:aws:s3:::MyBucket/*
 func (r Resources) Validate(bucket string) error {
 	for resource := range r {
-		if !strings.HasPrefix(resource, bucket) {
+		if resource != bucket && !strings.HasPrefix(resource, bucket+"/") {
 			return policyErrInvalidResource
 		}
 	}
